@@ -473,3 +473,38 @@
         assert!(state_tag_of(&p) == 0);
         kani::cover!(tag == 3);
     }
+
+    // ---- contract stub for Parser::parse used by the Reader::read_frame harness: consumes any k <= remaining bytes,
+    // returns any result, leaves any state (over-approximates the proved contracts of parse/parse_impl). Logs, for
+    // every call, the window of bytes it was given (length, first and last byte AT CALL TIME) and the state at entry.
+    pub(crate) static mut PARSE_LOG: [(usize, u8, u8, u8); 8] = [(0, 0, 0, 0); 8];
+    pub(crate) static mut PARSE_RES: [(u8, usize); 8] = [(0, 0); 8];
+    pub(crate) static mut PARSE_CALLS: usize = 0;
+    impl Parser {
+        pub(crate) fn stub_parse(&mut self, cursor: &mut ReadCursor, payload: &mut FramePayload) -> Result<Option<Header>, ParseError> {
+            let n = unsafe { PARSE_CALLS };
+            let remaining = cursor.remaining();
+            let mut peek = *cursor;
+            let first = peek.read_u8().unwrap_or(0);
+            let last = if remaining >= 2 { let _ = peek.read_bytes(remaining - 2); peek.read_u8().unwrap_or(0) } else { first };
+            let k: usize = kani::any();
+            kani::assume(k <= remaining);
+            let _ = cursor.read_bytes(k);
+            let res: u8 = kani::any();
+            kani::assume(res <= 2);
+            if n < 8 {
+                unsafe { PARSE_LOG[n] = (remaining, first, last, state_tag(&self.state)); PARSE_RES[n] = (res, k); }
+            }
+            unsafe { PARSE_CALLS += 1; }
+            let _ = set_state_any(self);
+            match res {
+                0 => Ok(None),
+                1 => Ok(Some(Header::new(ControlField::from(kani::any()), AnyAddress::from(kani::any()), AnyAddress::from(kani::any())))),
+                _ => Err(ParseError::BadFrame(FrameError::BadBodyCrc)),
+            }
+        }
+    }
+    pub(crate) fn parse_calls() -> usize { unsafe { PARSE_CALLS } }
+    pub(crate) fn parse_log(i: usize) -> (usize, u8, u8, u8) { unsafe { PARSE_LOG[i] } }
+    pub(crate) fn parse_res(i: usize) -> (u8, usize) { unsafe { PARSE_RES[i] } }
+    pub(crate) fn parse_log_reset() { unsafe { PARSE_CALLS = 0; } }
